@@ -10,7 +10,7 @@ TRUSTED = [
 ]
 IMPORTS = ("From QI Require Import Base.Scalar Model.Outcome Model.Pauli Model.Lattice Spec.Hamiltonians Run.FloatInst Run.EvalGates Run.EvalPauli Run.EvalLattice.")
 
-SPECIAL = [0.0, -0.0, 1.0, -1.0, 0.5, -2.5, 1e-9, -3e7, 2.0]
+SPECIAL = [0.0, -0.0, 1.0, -1.0, 0.5, -2.5, 1e-9, -3e7, 2.0, 1e-17, -3e-20, 1.6e-21, 5e-324]   # incl. non-zero values far below f64::EPSILON
 def rparam(rng):
     return rng.choice(SPECIAL) if rng.random() < 0.45 else rng.uniform(-3, 3)
 
